@@ -2051,11 +2051,15 @@ class TargetRegistry:
                     else:
                         ret = type_map[closest]
 
-            if ret is False and raise_exc:
-                raise UnregisteredTarget(op, obj_type, type_map=type_map, path=path)
-
             self._type_cache[cache_key] = ret
-        return self._type_cache[cache_key]
+        else:
+            ret = self._type_cache[cache_key]
+
+        # (outside the memo: "no handler", learned with raise_exc=False,
+        # is an UnregisteredTarget for the next caller that asks for one)
+        if ret is False and raise_exc:
+            raise UnregisteredTarget(op, obj_type, type_map=self.get_type_map(op), path=path)
+        return ret
 
     def get_type_map(self, op):
         try:
